@@ -159,6 +159,7 @@ func checkC14(c *Ctx, r *Report) {
 	ruleHeaderGuards(c, r, "version-accept")
 	ruleUvarintLen(c, r, "varint-length")
 	ruleNibbles(c, r, "bind-byte")
+	ruleLineCalcAdd(c, r, "line-table-values")
 	r.note("that a stored corpus of .bcb files still executes to its recorded results (needs execution)")
 	r.note("the arithmetic of the signed-integer mapping i64ToU64/u64ToI64")
 }
